@@ -398,6 +398,36 @@ func RunSubmitScenarios(c *Ctx) {
 					})
 				}
 			}
+			// a DA layer that acknowledges only a prefix of a submission and then fails for longer than one
+			// submission call keeps retrying: what it acknowledged must stop counting against the limit
+			if limit >= 2 {
+				for _, k := range []int{1, int(limit) - 1} {
+					synctest.Run(func() {
+						s := newSubRun(c, fmt.Sprintf("partialoutage/ih%d/L%d/k%d", ih, limit, k), ih, limit, world.F{"src": "partialoutage"})
+						defer s.finish()
+						if s.start() != nil {
+							return
+						}
+						s.produce("none")
+						s.tick()
+						s.tick()
+						s.w.DA.Default = "err"
+						for i := 0; i < int(limit); i++ {
+							s.seedTx++
+							s.produce(fmt.Sprintf("p%d", s.seedTx))
+						}
+						s.w.DA.SubmitScript = []string{fmt.Sprintf("prefix:%d", k), fmt.Sprintf("prefix:%d", k)}
+						for i := 0; i < 45 && !s.down(); i++ {
+							s.tick()
+						}
+						s.seedTx++
+						s.produce(fmt.Sprintf("p%d", s.seedTx))
+						s.tick()
+						s.settle(int(limit)+1, false)
+						c.Count("scenarios", 1)
+					})
+				}
+			}
 			for r := 0; r < reps; r++ {
 				synctest.Run(func() {
 					s := newSubRun(c, fmt.Sprintf("faults/ih%d/L%d/%d", ih, limit, r), ih, limit, world.F{"src": "faults"})
